@@ -8,10 +8,12 @@ import SleapVerif.Model.Eval
 
 → `P <k> (f g p oks)… | F <k> (f g)… | V none` or
   `V ms… ; recalls… ; AP… ; mAP ; mAR ; precisions(flat)… ; margins(per match thr; -1 = no finite)…`
-  `| M <mOKS> | S tp fp tn fn prec rec | D <dists flat (float bits|nan)> ; avg ; parts… ; mPCK ; pckbits ; margin`
+  `| M <mOKS> | S tp fp tn fn prec rec | D <dists flat (float bits|nan)> ; avg ; parts… ; mPCK ; pckbits ; margin ; p50 p75 p90 p95 p99`
 
 The matching / VOC / mOKS / visibility part runs at `Rat` (exact), distances and PCK at `Float`.
 `recall <t> <npig> <ms:list rat>` → `recallAt` at Rat.
+`pairs <gt videos: list (kind filename dataset|nan)> <pr videos> <gt frames: list (video frame_idx n_user_inst)>
+       <pr frames: list (video frame_idx)>` → `<asis:ok|raise> <k> (gt frame pos, pr frame pos)…` (`find_frame_pairs`).
 -/
 open SleapVerif SleapVerif.Proto SleapVerif.Oks SleapVerif.Eval
 
@@ -105,7 +107,27 @@ def handle (line : String) : String :=
       let dStr := "D " ++ " ".intercalate (d.flatten.map ofloatStr) ++ " ; " ++ ofloatStr (avgDist castF d)
         ++ " ; " ++ " ".intercalate ((mPCKparts castF pTF d nn).map floatStr) ++ " ; "
         ++ floatStr (mPCK castF pTF d nn) ++ " ; " ++ "".intercalate bits ++ " ; " ++ floatStr mgMin
+        ++ " ; " ++ " ".intercalate ([50, 75, 90, 95, 99].map (fun p =>
+              ofloatStr (percentile castF p (d.flatten.filterMap id))))
       " | ".intercalate [pairsStr, fnStr, vocStr, moksStr, visStr, dStr]
+    | none => "bad-op"
+  | "pairs" :: rest =>
+    match runP (do
+        let vk : P VideoKey := do
+          let k ← nat; let f ← nat; let d ← orat
+          pure { kind := k, filename := f, dataset := d.map (fun q => q.num.toNat) }
+        let gv ← listOf vk; let pv ← listOf vk
+        let gf ← listOf (do let v ← nat; let i ← nat; let n ← nat; pure (v, i, n))
+        let pf ← listOf (do let v ← nat; let i ← nat; pure (v, i))
+        pure (gv, pv, gf, pf)) rest with
+    | some (gv, pv, gf, pf) =>
+      let gt : Labels Nat := { videos := gv, frames := gf.zipIdx.map (fun ((v, i, n), k) =>
+        { video := v, frameIdx := i, insts := List.replicate n k }) }
+      let pr : Labels Nat := { videos := pv, frames := pf.zipIdx.map (fun ((v, i), k) =>
+        { video := v, frameIdx := i, insts := [k] }) }
+      let asis := match findFramePairsAsIs gt pr with | none => "raise" | some _ => "ok"
+      let ps := findFramePairs gt pr
+      s!"{asis} {ps.length} " ++ " ".intercalate (ps.map (fun (a, b) => s!"{a.insts.headD 0} {b.insts.headD 0}"))
     | none => "bad-op"
   | "recall" :: rest =>
     match runP (do let t ← rat; let n ← nat; let ms ← listOf rat; pure (t, n, ms)) rest with
